@@ -155,13 +155,36 @@ def _flag_guard(ctx, bs, f, cfg, n):
                     b = bind_args(f, c)
                     arg = b.get(a)
                     sel = b.get('selected')
-                    good = False
-                    for v in resolve_local(g, arg) if arg is not None else []:
-                        for aa, pp in guard_atoms(v):
-                            if not pp and aa.endswith('.readonly') and (
-                                    sel is None or
-                                    aa == f'{txt(sel)}.readonly'):
-                                good = True
+                    vals = list(resolve_local(g, arg)) \
+                        if arg is not None else []
+                    # every definition that can reach the call must carry
+                    # the conjunct (a conjunct added on one branch only
+                    # leaves the other path unguarded)
+                    if isinstance(arg, ast.Name):
+                        vals = [v for _, v in local_assigns(g, arg.id)
+                                if v is not None]
+                        # later definitions that refine the flag (x = x and
+                        # ...) are fine only if they dominate the call
+                        gcfg = cfg_of(g)
+                        callnodes = gcfg.node_containing(c)
+                        dom_defs = [st for st, v in local_assigns(g, arg.id)
+                                    if v is not None and all(
+                                        gcfg.dominated_by(cn, gcfg.nodes_of(st))
+                                        for cn in callnodes)]
+                        if dom_defs:
+                            last = dom_defs[-1]
+                            vals = [v for st, v in local_assigns(g, arg.id)
+                                    if st is last]
+                    good = bool(vals)
+                    for v in vals:
+                        okv = False
+                        for v2 in resolve_local(g, v):
+                            for aa, pp in guard_atoms(v2):
+                                if not pp and aa.endswith('.readonly') and (
+                                        sel is None or
+                                        aa == f'{txt(sel)}.readonly'):
+                                    okv = True
+                        good = good and okv
                     if not good:
                         return False, (f'flag `{a}` passed at '
                                        f'{g.qualname}:{c.lineno} is not '
